@@ -24,6 +24,7 @@ var Flavors = []string{
 	"fresh-v1", "fresh-v2", "chain-v1", "chain-v2", "stale-v2", "conflict-v1", "conflict-v2",
 	"set-conflict-v1", "set-conflict-v2", "set-invalid-v1", "set-invalid-v2", "partly-known-v1", "partly-known-v2",
 	"known-v1", "known-v2", "child-only-v1", "child-only-v2", "builder", "wrong-basis-v2", "corrupt-proof-v2", "empty-v1", "empty-v2",
+	"dup-v1", "dup-v2",
 }
 
 func (r *Runner) v1ok() bool {
@@ -127,6 +128,12 @@ func (r *Runner) Fabricate(g *rng.R, flavor string) *Submission {
 		builderKind = flavor[len("builder:"):]
 		flavor = "builder"
 	}
+	asBlock := -1
+	if strings.HasPrefix(flavor, "spend-as-block:") {
+		fmt.Sscanf(flavor[len("spend-as-block:"):], "%d", &asBlock)
+		flavor = "spend-as-block"
+		s.Flavor = flavor
+	}
 	slackArg := -1
 	if strings.HasPrefix(flavor, "exact-fill-v2:") {
 		fmt.Sscanf(flavor[len("exact-fill-v2:"):], "%d", &slackArg)
@@ -140,6 +147,10 @@ func (r *Runner) Fabricate(g *rng.R, flavor string) *Submission {
 	}
 	if flavor == "builder" && !r.v1ok() && !r.v2ok() {
 		return nil
+	}
+	if flavor == "spend-as-block" {
+		v2 = r.v2ok()
+		s.V2 = v2
 	}
 	free := r.freeInputs(tip)
 	pick := func() (types.SiacoinElement, bool) {
@@ -173,7 +184,67 @@ func (r *Runner) Fabricate(g *rng.R, flavor string) *Submission {
 		if !fresh() {
 			return nil
 		}
+	case "spend-as-block":
+		// a transaction spending an element that a transaction of tree block asBlock spends too (free at
+		// the tip): when that block is applied, even transiently, this transaction may leave the pool
+		if asBlock < 0 || asBlock >= len(r.W.T.Nodes) {
+			return nil
+		}
+		spentThere := map[types.SiacoinOutputID]bool{}
+		bn := r.W.T.Nodes[asBlock]
+		for _, t := range bn.Block.Transactions {
+			for _, in := range t.SiacoinInputs {
+				spentThere[in.ParentID] = true
+			}
+		}
+		for _, t := range bn.Block.V2Transactions() {
+			for _, in := range t.SiacoinInputs {
+				spentThere[in.Parent.ID] = true
+			}
+		}
+		var cands []types.SiacoinElement
+		for _, e := range free {
+			if spentThere[e.ID] {
+				cands = append(cands, e)
+			}
+		}
+		if len(cands) == 0 {
+			return nil
+		}
+		e := cands[g.Intn(len(cands))]
+		if v2 {
+			t, m := r.mkV2(g, tip, e, 0)
+			add2(t, m)
+		} else {
+			t, m := r.mkV1(g, tip, e.ID, e.SiacoinOutput.Value, 0)
+			add1(t, m)
+		}
 	case "empty-v1", "empty-v2":
+	case "dup-v1", "dup-v2":
+		// the same transaction twice in one set: a fresh one, or (when there is one) a pooled one
+		if v2 {
+			if len(pv2) > 0 && g.Bool() {
+				t := pv2[g.Intn(len(pv2))]
+				m := r.meta(t.ID(), Meta{POK: true})
+				add2(t, m)
+				add2(t.DeepCopy(), m)
+			} else if fresh() {
+				add2(s.V2s[0].DeepCopy(), s.Metas[0])
+			} else {
+				return nil
+			}
+		} else {
+			if len(pv1) > 0 && g.Bool() {
+				t := pv1[g.Intn(len(pv1))]
+				m := r.meta(t.ID(), Meta{SignedAt: tip.Height, POK: true})
+				add1(t, m)
+				add1(t, m)
+			} else if fresh() {
+				add1(s.V1[0], s.Metas[0])
+			} else {
+				return nil
+			}
+		}
 	case "chain-v1", "chain-v2":
 		e, ok := pick()
 		if !ok {
